@@ -82,6 +82,8 @@ func subset(got map[string]bool, allowed []string) (bad []string) {
 func runC02(c *Ctx) {
 	p := c.P
 	checkWrapperNotTakenForPacket(c, "R9")
+	// R10 (shared with C07.R4): a worker that panics on request data answers neither that request nor the ones behind it
+	c.withRule("R10", func() { checkServerPanicSites(c) })
 	pos := func(in ssa.Instruction) string { return p.Pos(in.Pos()) }
 	handle := p.Func("handlePacket")
 	worker := p.Func("(*RequestServer).packetWorker")
